@@ -124,6 +124,15 @@ def c03_boundary():
                                   "body": 6})
                 scripts.append({"draws": [at], "mid": 4096, "events": ev + [sub, far_end([sub])], "rules": rules,
                                 "tag": f"mid-collision:{theirs}:{do}@copy{k}"})
+    # remote 5 is sent to under an address with a zone (scope id 1) and heard from with scope id 0, as the kernel
+    # reports a non-link-local source: its ACK / RST / piggy-backed response still are "from the same endpoint"
+    at, factor, mr = TUNINGS[0]
+    for do in ("ack", "rst", "piggy"):
+        for k in (1, 2):
+            sub = submit(1000, 0, 5, rel=True, maxretr=mr, tuning=[at, factor])
+            rules = [{"remote": 5, "mtype": "CON", "nth": k, "after": 500, "do": do, "body": 7}]
+            scripts.append({"draws": [at], "events": [sub, far_end([sub])], "rules": rules,
+                            "tag": f"zoned-global:{do}@copy{k}"})
     return scripts
 
 
@@ -451,6 +460,19 @@ def c10_table(cfg=None):
             ev.append(far_end(ev))
             scripts.append({"events": ev, "rules": [], "draws": [], "tag": f"to-multicast:{rel}:{mtype}"})
     scripts += c10_token_reuse((cfg or {}).get("emptyAckDelay", 104857)) + c10_on_exchange()
+    # a NON request under the message ID of an earlier, acknowledged CON request of that peer (piggy-backed, empty,
+    # or the empty ACK of a suppressed response): whatever the duplicate table does, a NON is never acknowledged
+    for how in ("piggy", "empty", "suppressed"):
+        for tok2 in ("c9", "ca"):
+            t = 5000
+            ev = [request_in(t, 0, 300, "c9", mtype="CON", body=1)]
+            ev.append(respond(t + (1000 if how != "empty" else 300000), 0, body=5, nr=26 if how == "suppressed" else 0))
+            ev.append(request_in(t + 600000, 0, 300, tok2, mtype="NON", body=2))
+            ev.append(request_in(t + 700000, 1, 300, tok2, mtype="NON", body=3))     # another peer: not a copy
+            ev.append(respond(t + 701000, 1, body=6))
+            ev.append(far_end(ev))
+            rules = [{"remote": r, "mtype": "CON", "nth": 1, "do": "ack", "after": 700} for r in (0, 1)]
+            scripts.append({"events": ev, "rules": rules, "draws": [], "tag": f"non-under-con-mid:{how}:{tok2}"})
     return scripts
 
 
@@ -551,6 +573,48 @@ def c10_random(rng, cfg):
 # ---------------------------------------------------------------------------------------------
 # C02 / C18: concurrent clients, forged responses, shutdown
 # ---------------------------------------------------------------------------------------------
+
+def c02_copied_messages():
+    """requests built as `.copy()` of the Message of an earlier request (the "same request again" idiom): while the
+    earlier one is still outstanding to the same endpoint, after it completed with a duplicated / late response
+    still to come, and to another endpoint -- tokens stay pairwise different and every response reaches its own
+    request (oracle only: the model has no message objects)"""
+    scripts = []
+    for rel in (False, True):
+        for second_remote in (0, 1):
+            for answer_first in ("older", "newer"):
+                ev = [submit(1000, 0, 0, rel=rel), submit(300000, 1, second_remote, rel=rel, body=101)]
+                mt = "CON" if rel else "NON"
+                if rel:
+                    rules = [{"remote": 0, "mtype": "CON", "nth": 1, "do": "ack", "after": 500},
+                             {"remote": second_remote, "mtype": "CON", "nth": 2 if second_remote == 0 else 1,
+                              "do": "ack", "after": 500}]
+                else:
+                    rules = []
+                d0, d1 = (2 * M, 3 * M) if answer_first == "older" else (3 * M, 2 * M)
+                rules.append({"remote": 0, "mtype": mt, "nth": 1, "do": "sep", "ptype": "NON", "pmid": 9001,
+                              "after": d0, "body": 200})
+                rules.append({"remote": second_remote, "mtype": mt, "nth": 2 if second_remote == 0 else 1,
+                              "do": "sep", "ptype": "NON", "pmid": 9002, "after": d1, "body": 201})
+                ev.append(far_end(ev))
+                scripts.append({"events": ev, "rules": rules, "draws": [2 * M + 3, 2 * M + 5], "copy_of": {"1": 0},
+                                "oracle_only": "copied-message",
+                                "tag": f"copied-message:{mt}:{second_remote}:{answer_first}"})
+    # poll loop: the earlier request completed; its response is duplicated by the network and the copy arrives
+    # while the next poll (a copy of the first message) is outstanding
+    for rel in (False, True):
+        mt = "CON" if rel else "NON"
+        ev = [submit(1000, 0, 0, rel=rel), submit(4 * M, 1, 0, rel=rel, body=101)]
+        rules = [{"remote": 0, "mtype": mt, "nth": 1, "do": "sep", "ptype": "NON", "pmid": 9001, "after": M, "body": 200},
+                 {"remote": 0, "mtype": mt, "nth": 1, "do": "sep", "ptype": "NON", "pmid": 9001, "after": 5 * M, "body": 200},
+                 {"remote": 0, "mtype": mt, "nth": 2, "do": "sep", "ptype": "NON", "pmid": 9002, "after": 3 * M, "body": 201}]
+        if rel:
+            rules += [{"remote": 0, "mtype": "CON", "nth": k, "do": "ack", "after": 500} for k in (1, 2)]
+        ev.append(far_end(ev))
+        scripts.append({"events": ev, "rules": rules, "draws": [2 * M + 3, 2 * M + 5], "copy_of": {"1": 0},
+                        "oracle_only": "copied-message", "tag": f"copied-message:poll:{mt}"})
+    return scripts
+
 
 def c02_random(rng, cfg, with_shutdown=None):
     clock = Clock(rng)
